@@ -15,7 +15,7 @@ ASSUMPTIONS = [
 ]
 
 
-def class_src(meta, ann, conf, allow, forbid, shadow, disc, anytype=False):
+def class_src(meta, ann, conf, allow, forbid, shadow, disc, anytype=False, last_plain=False):
     """f1 has the chosen alias sources; f2 has no alias (its name may be shadowed by f1's alias); f3 defaulted with alias."""
     a_meta = "f2" if shadow else "mA"
     base_t = "Any" if anytype else "int"
@@ -32,7 +32,7 @@ def class_src(meta, ann, conf, allow, forbid, shadow, disc, anytype=False):
     lines += ["@dataclass", "class K(%s):" % parent,
              "    f1: %s%s" % (f1_type, f1_field),
              "    f2: int",
-             "    f3: int = field(default=30, metadata={'alias': 'a3'})"]
+             "    f3: int = field(default=30, metadata={'alias': 'a3'})" if not last_plain else "    f3: int = 30"]
     if disc:
         lines.append("    type = 'k'")
         return "\n".join(lines) + "\n"
@@ -75,6 +75,11 @@ def harnesses(tier, seed):
     for c in anycombos:
         name = "KA_" + "".join("1" if x else "0" for x in c)
         hs.append(gen.custom_harness("C09", "c09", Schema(name, "K", class_src(*c, anytype=True)), "mixin"))
+    for meta, conf in ((True, False), (False, True)):
+        for allow, forbid in itertools.product([False, True], repeat=2):
+            c = (meta, False, conf, allow, forbid, False, False)
+            name = "KL_" + "".join("1" if x else "0" for x in c)
+            hs.append(gen.custom_harness("C09", "c09", Schema(name, "K", class_src(*c, last_plain=True)), "mixin"))
     return hs
 
 
